@@ -183,7 +183,9 @@ func big10abs(s string) *big.Int {
 }
 
 // racing withdrawals of one wallet
-func c07Race(cfg c07Cfg, nthreads, bound int) vh.Unit { return c07RaceOn(vh.Memory, cfg, nthreads, bound) }
+func c07Race(cfg c07Cfg, nthreads, bound int) vh.Unit {
+	return c07RaceOn(vh.Memory, cfg, nthreads, bound)
+}
 
 func c07RaceOn(driver string, cfg c07Cfg, nthreads, bound int) vh.Unit {
 	name := fmt.Sprintf("payout-race/min%s-fee%s/x%d", cfg.min, cfg.fee, nthreads)
